@@ -563,8 +563,10 @@ class Routing(Stream):
                 skipped = 'skip:input outside the quantifier: the implementation refuses it (%s), the model does not' % o['outcome']
                 continue
             for st, key in zip(STAGES, ('gni', 'ie', 'gpe')):
-                model = set(_cfg.wire(x) for x in _cfg.unwire(r.args[key]))
-                impl = set(o['calls'][st])
+                # records are compared as VALUES: the order of the keys inside an option dictionary is not observable
+                # by the stage that receives it
+                model = set(_canon_wire(x) for x in _cfg.unwire(r.args[key]))
+                impl = set(_canon_rec(x) for x in o['calls'][st])
                 if failed:
                     if not impl <= model:
                         return '%s/%s: implementation raised %s after calls the model does not make: %s' % (
@@ -673,6 +675,28 @@ class Routing(Stream):
                 yield c
         if case['signal']['n'] > 128:
             yield dict(case, signal=dict(case['signal'], n=128))
+
+
+def _sorted_keys(o):
+    if isinstance(o, dict):
+        return {k2: _sorted_keys(o[k2]) for k2 in sorted(o)}
+    if isinstance(o, list):
+        return [_sorted_keys(x) for x in o]
+    if isinstance(o, tuple):
+        return tuple(_sorted_keys(x) for x in o)
+    return o
+
+
+def _canon_wire(o):
+    return _cfg.wire(_sorted_keys(o))
+
+
+def _canon_rec(rec):
+    """a recorded stage call (wire string) with every dictionary in sorted key order; unparsable records stay as they are"""
+    try:
+        return _cfg.wire(_sorted_keys(_cfg.unwire(rec)))
+    except Exception:  # noqa
+        return rec
 
 
 def _pretty(recs):
